@@ -71,7 +71,8 @@ PROPS = {
         "technique": "column-to-field dataflow rule, iterator-chain shape rules, kind propagation",
     },
     "C14": {
-        "rules": [r_fmt.run_c14, r_cost.run_c14, kind_scope("trainer::model"), r_misc.cache, r_misc.idxbase],
+        "rules": [r_fmt.run_c14, r_cost.run_c14, kind_scope("trainer::model"), r_misc.cache, r_misc.idxbase,
+                  r_codec.run_c18],
         "explanation": "FMT: each generated file's row template (delimiters, column count and "
                        "order, quoted surface first, feature last) matches what the compiler's "
                        "reader does with each column (parse_csv column->field mapping, "
@@ -162,7 +163,7 @@ PROPS = {
     },
     "C12": {
         "rules": [r_misc.lattice_shape, r_misc.spaceopt, r_viterbi.traceback,
-                  kind_scope("tokenizer", "unknown")],
+                  kind_scope("tokenizer", "unknown"), r_cand.cand, r_cand.charrange],
         "explanation": "LATTICE: build_lattice_inner resets first, tests reachability, SPACE "
                        "membership and the skipped run at start_node, adds candidates with "
                        "(start_node, start_word), connects EOS from start_node on every path; "
@@ -218,7 +219,7 @@ PROPS = {
     "C02": {
         "rules": [r_viterbi.viterbi, r_viterbi.traceback, r_panic.run_narrow_lattice,
                   kind_scope("tokenizer", "connector", "lexicon::param", "unknown"),
-                  r_reset.run_tokens, r_panic.run_costsum],
+                  r_reset.run_tokens, r_panic.run_costsum, r_map.run_compose],
         "explanation": "VITERBI: insert_node/insert_eos take (argmin, min) from one search over "
                        "the complete predecessor list of the very start_node they store, with "
                        "cost(pred.right_id, own left_id), min_cost = best + word_cost, EOS "
@@ -234,7 +235,8 @@ PROPS = {
         "technique": "symbolic-expression and loop-shape rules over MIR, kind propagation",
     },
     "C03": {
-        "rules": [r_cand.cand, r_cand.unkfall, r_cand.unkgroup, r_cand.unkspans],
+        "rules": [r_cand.cand, r_cand.unkfall, r_cand.unkgroup, r_cand.unkspans, r_cand.charrange,
+                  r_reset.run_tokens],
         "explanation": "CAND: at every processed position both lexicons are searched over the "
                        "same remaining text, every match is inserted and sets has_matched, and "
                        "gen_unk_words is called exactly once with that flag, the word start and "
@@ -248,7 +250,7 @@ PROPS = {
         "technique": "MIR must-pass-through and loop-shape rules, path-sensitive boolean analysis",
     },
     "C08": {
-        "rules": [r_map.run_user, r_cand.cand, r_token.dispatch,
+        "rules": [r_map.run_user, r_map.run_compose, r_cand.cand, r_token.dispatch,
                   kind_scope("dictionary::lexicon", "dictionary::Dictionary", "dictionary::connector")],
         "explanation": "MAPKEEP: a user lexicon is translated by the stored mapper, then verified "
                        "against the dictionary's connector (failure returns Err), then installed; "
@@ -380,7 +382,10 @@ PROPS = {
 
 # Rules added after the first full pass: text appended to the entries above.
 _ADDED = {
-    "C03": ("UNKSPAN: candidate spans as linear relations - the grouped candidate is start..start+run "
+    "C03": ("CHARRANGE: parse_char_range stores (lower, upper + 1) and from_reader overwrites "
+            "exactly [start, end) per range line, in file order. RESET (token scope): the "
+            "per-sentence category and run-length tables are rebuilt before candidates are "
+            "generated. UNKSPAN: candidate spans as linear relations - the grouped candidate is start..start+run "
             "and is emitted iff run - limit <= 1 (limit unbounded without max_grouping_len), prefix "
             "lengths are 1..=min(length, run), the fallback is one character. UNKGROUP: path-sensitive pass over (outcome of CharInfo::group(), value of the flag "
             "the prefix loop tests): the prefix of run length is skipped on every path with "
@@ -421,10 +426,15 @@ _ADDED = {
             "remainder of its own row after the fourth field and an earlier (skipped) row leaves "
             "nothing behind. Re-deriving the feature by comma-splitting text is reported.",
             "path-sensitive abstract interpretation of the CSV parsing loop"),
+    "C12": ("CAND: lexicon matches are inserted at (start_node, start_word, start_word + match "
+            "length) for both lexicons. CHARRANGE: a char.def range line overwrites exactly the "
+            "code points [lower, upper] (the SPACE category of a character is not changed by a "
+            "neighbouring range).", "symbolic iterator-window rule"),
     "C13": ("SORTCMP: both sort comparators of compute_probs compare second.prob with first.prob "
             "(non-increasing frequency) and break ties by first.id against second.id (ascending).",
             "comparator shape rule over closure MIR"),
-    "C14": ("QUOTER: every byte quote_csv_cell writes comes from the csv-core writer's output "
+    "C14": ("CODEC over the model image (files are normally generated from a re-read model). "
+            "QUOTER: every byte quote_csv_cell writes comes from the csv-core writer's output "
             "buffer and Writer::finish precedes Ok. IDXBASE: a 1-based feature id indexes rucrf's "
             "unigram table as id-1 and the bigram table (slot 0 = BOS/EOS) as id. "
             "CACHE: every Model method that mutates the model data resets the cached merged "
